@@ -504,6 +504,29 @@ def rule_semtok_tables(prog):
                         r = n["res"]
                         if r.get("k") == "Def" and r["p"].startswith("lsp4spl::features::semantic_tokens::TOKEN_"):
                             used[f["name"]] = last(r["p"])
+    # ... and reaches the client unchanged: the handler emits fixed indices into these arrays, so nothing between the constants and the
+    # `initialize` answer may prune, reorder or extend the two lists (e.g. filtering them by the client's capabilities)
+    LIST_EDITS = ("retain", "retain_mut", "dedup", "dedup_by", "dedup_by_key", "truncate", "drain", "pop", "remove", "swap_remove", "clear",
+                  "sort", "sort_by", "sort_by_key", "sort_unstable", "sort_unstable_by", "sort_unstable_by_key", "reverse", "split_off",
+                  "rotate_left", "rotate_right", "swap", "insert", "push", "extend", "filter", "skip", "take", "rev", "step_by")
+    edited = None
+    n_lists = 0
+    for b in c.bodies:
+        if "/tests" in c.file_of(b["sp"]) or "_serde" in b["d"]:
+            continue
+        for mc in hir.nodes(b["body"], "MethodCall"):
+            r_ = hir.strip(mc["recv"])
+            t_ = c.tstr(r_["t"]) + "".join(c.tstr(a_["to"]) for a_ in r_.get("adj") or [])
+            if "SemanticTokenType>" in t_.replace(" ", "") or "SemanticTokenModifier>" in t_.replace(" ", "") or \
+                    "lsp_types::SemanticTokenType]" in t_ or "lsp_types::SemanticTokenModifier]" in t_:
+                n_lists += 1
+                if mc["m"] in LIST_EDITS:
+                    edited = (b, mc)
+    out.add("semantic token legend", "T6 the legend reaches the client as the two constants list it (never pruned or reordered)", edited is None,
+            c.loc(edited[1]["sp"]) if edited else loc,
+            "`.%s(..)` on the announced token types / modifiers in `%s`: the handler encodes token classes as fixed indices into "
+            "TOKEN_TYPES / TOKEN_MODIFIERS, a client that was sent a shorter or reordered legend decodes every index behind the change "
+            "as another class" % (edited[1]["m"] if edited else "", edited[0]["d"] if edited else ""), ("T6", "legend"))
     # the lexical classes: comments, numbers (Int, Hex, Char) and every keyword are mapped, by the token-kind mapper, to the class
     # the property names (table frozen from the property text; predicates such as is_keyword() are evaluated from their match tables)
     mapper = None
